@@ -57,6 +57,23 @@ def _package_function(name):
     return fs[0] if len(fs) == 1 else None
 
 
+def _package_staticmethod(name):
+    """The unique static method of the package called `name` (a predicate a refactoring moved into a class)."""
+    if PACKAGE is None:
+        return None
+    fs = [f for f in PACKAGE.all_funcs() if f.name == name and f.cls is not None and any(isinstance(d, ast.Name) and d.id == "staticmethod" for d in f.node.decorator_list)]
+    return fs[0] if len(fs) == 1 else None
+
+
+def _package_callable(d):
+    """dotted callee -> package function (`name`) or static method (`anything.name`)."""
+    if not d:
+        return None
+    if "." not in d:
+        return _package_function(d)
+    return _package_staticmethod(d.rsplit(".", 1)[1])
+
+
 def _package_constant(name):
     if PACKAGE is None:
         return None
@@ -330,10 +347,13 @@ class Interp:
                         return recv.format(*[self.ev(a, env) for a in e.args])
             if fn == "map" and len(e.args) == 2 and dotted(e.args[0]) in self.stubs:
                 return [self.stubs[dotted(e.args[0])](v) for v in self.ev(e.args[1], env)]
+            if fn == "map" and len(e.args) == 2 and _package_callable(dotted(e.args[0])) is not None:
+                pc = _package_callable(dotted(e.args[0]))
+                return [self.call_package_function(pc, [v]) for v in self.ev(e.args[1], env)]
             if isinstance(e.func, ast.Attribute) and e.func.attr == "opposite" and not e.args:
                 v = self.ev(e.func.value, env)
                 return {"LESS": "MORE", "MORE": "LESS"}.get(v, v)
-            pf = _package_function(fn) if fn and "." not in fn else None
+            pf = _package_callable(fn)
             if pf is not None and not e.keywords:
                 args = []
                 for a in e.args:
